@@ -107,4 +107,19 @@ theorem new_image_class_gated (sixelAdv kittyAdv pixKnown : Bool) :
     ((sixelAdv = false ∧ kittyAdv = false) ∨ pixKnown = false → newImageGen (detected sixelAdv kittyAdv pixKnown) = some .halfBlock) := by
   cases sixelAdv <;> cases kittyAdv <;> cases pixKnown <;> decide +kernel
 
+open VaxisModel.Model.ImageProto in
+/-- The same gating over the *interpreted* start-up (`detectedGen`) and the interpreted `NewImage`
+— no hand-transcribed step in between: whatever the two notifications and the pixel size, the object
+handed out is a kitty image only if the kitty graphics reply arrived, a sixel image only if sixel
+was advertised, and never the error (`none`) or the full-block renderer. -/
+theorem new_image_class_gated_source (s k p : Bool) :
+    ∃ c, (detectedGen ⟨s, k, p⟩).bind newImageGen = some c ∧
+      (c = .kitty → k = true ∧ p = true) ∧ (c = .sixel → s = true ∧ k = false ∧ p = true) ∧
+      (c = .kitty ∨ c = .sixel ∨ c = .halfBlock) := by
+  cases s <;> cases k <;> cases p <;>
+    first
+    | exact ⟨.halfBlock, by decide +kernel, by decide, by decide, by decide⟩
+    | exact ⟨.sixel, by decide +kernel, by decide, by decide, by decide⟩
+    | exact ⟨.kitty, by decide +kernel, by decide, by decide, by decide⟩
+
 end VaxisModel.Props.C07Image
